@@ -115,26 +115,41 @@ theorem cnt_emitIW (fw bg wmb single txt : Bool) (ks : List SChild) :
   simp only [emitIW, cnt_append, cnt_inner]
   cases fw <;> cases bg <;> cases wmb <;> simp
 
-theorem cnt_wTrans (f : Bool) (p : Prev) : cnt (wTrans f p) = 0 := by
-  cases p with
-  | none => rfl
-  | raw => rfl
-  | sec pfw => cases pfw <;> cases f <;> rfl
+theorem cnt_rowClose (d : Depth) : cnt (rowClose d) = 0 := by cases d <;> rfl
+theorem cnt_rowOpen (b : Bool) : cnt (rowOpen b) = 0 := by cases b <;> rfl
 
-theorem cnt_wKids (fr fs dl wb : Bool) : ∀ (p : Prev) (ks : List WChild), cnt (wKids fr fs dl wb p ks) = (ks.map WChild.slots).sum
-  | _, [] => rfl
-  | p, .raw b :: r => by
-    have ih := cnt_wKids fr fs dl wb .raw r
+theorem cnt_wKids (fs dl wb : Bool) : ∀ (d : Depth) (p : Prev) (ks : List WChild),
+    cnt (wKids fs dl wb d p ks).1 = (ks.map WChild.slots).sum
+  | _, _, [] => rfl
+  | d, p, .raw b :: r => by
+    have ih := cnt_wKids fs dl wb d .raw r
     simp only [wKids, cnt_append, ih, List.map_cons, List.sum_cons, WChild.slots]
-    cases fr <;> simp [cnt_raw]
-  | p, .sec s :: r => by
-    have ih := cnt_wKids fr fs dl wb (.sec s.fw) r
-    simp only [wKids, cnt_append, ih, cnt_wTrans, cnt_emitIW, List.map_cons, List.sum_cons, WChild.slots, Section.slots]
-    omega
+    by_cases hd : d = .none
+    · simp [hd, cnt_raw]
+    · simp [hd, cnt_raw, cnt_rowClose, cnt_rowOpen]
+  | d, p, .sec s :: r => by
+    cases p with
+    | none =>
+      have ih := cnt_wKids fs dl wb d (.sec s.fw) r
+      simp only [wKids, cnt_append, ih, cnt_emitIW, List.map_cons, List.sum_cons, WChild.slots, Section.slots, cnt_nil]
+      omega
+    | raw =>
+      have ih := cnt_wKids fs dl wb d (.sec s.fw) r
+      simp only [wKids, cnt_append, ih, cnt_emitIW, List.map_cons, List.sum_cons, WChild.slots, Section.slots, cnt_nil]
+      omega
+    | sec pfw =>
+      have ih := cnt_wKids fs dl wb (Depth.ofSec (!pfw || fs)) (.sec s.fw) r
+      simp only [wKids, cnt_append, ih, cnt_emitIW, List.map_cons, List.sum_cons, WChild.slots, Section.slots, cnt_nil,
+        cnt_rowClose, cnt_rowOpen, cnt_cons_co, cnt_cons_cc]
+      omega
+
+theorem cnt_openToks (d : Depth) : cnt d.openToks = 0 := by cases d <;> rfl
+theorem cnt_closeToks (d : Depth) : cnt d.closeToks = 0 := by
+  cases d <;> simp [Depth.closeToks, cnt_rowClose]
 
 theorem cnt_wrapper (w : Wrapper) (p : Bool) : cnt (w.toks p) = (w.kids.map WChild.slots).sum := by
-  simp only [Wrapper.toks, Wrapper.mid, wPre, wPost, cnt_append, cnt_wKids]
-  cases w.fw <;> cases p <;> simp <;> (repeat' split) <;> simp
+  simp only [Wrapper.toks, Wrapper.mid, wPre, wPost, cnt_append, cnt_wKids, cnt_openToks, cnt_closeToks]
+  cases w.fw <;> cases p <;> simp
 
 theorem cnt_hero (ls : List Leaf) : cnt (heroToks ls) = ls.length := by
   simp [heroToks, heroPre, heroPost, cnt_leaves]
